@@ -43,7 +43,9 @@ CLAIMED = {
                   "deviation switch for the historical ordered-add placement) checked by TLC; TLC-generated transition tour and "
                   "simulated walks replayed on CSSStyleSheet / @media / @page lists; TLC trace monitor",
         text="Bounded exhaustive over edit histories: every explored transition of the machine (10 rule kinds incl. merged margin boxes, "
-             "rules as text and as objects, insert at every index, ordered add, delete, cssText/encoding assignment, nested list edits, "
+             "rules as text and as objects, insert at every index, ordered add, delete by index / negative index / rule object, cssText/encoding "
+             "assignment, nested list edits; every third behaviour with the sheet's own text re-assigned before the last action, behaviours that "
+             "declare a prefix replayed a second time with the style rules USING that namespace, "
              "declaration edits with foreign Property objects) is executed on the real DOM; after each step TLC checks "
              "OneCharsetFirst, Ordered, ChildrenAllowed, ParentMirror, DetachedHaveNoParent, ReparseKeepsEveryRule and that the "
              "step is allowed (accepted insert puts exactly that rule at that index, ordered add at some valid index, rejected "
